@@ -124,7 +124,7 @@ func execJSON(raw json.RawMessage) (res execResult, err error) {
 	return
 }
 
-const c09Rule = "parser level: every pair (representation at indexing time, representation at query time) of the values {0, +-1, +-3, 7, +-127, 255, +-2^31, +-2^53+-1, +-2^62} in every supported shape (all integer widths, numeric string, json.Number, float32/64 incl. fractional, scalar / typed slice / heterogeneous list) and pairs of different values; end to end: the same pairs through AddDocument/Retrieve on both posting-list indexes; JSON ingest: documents of every operator (in/not-in on default, pattern and range containers, >, <, between) marshalled, unmarshalled and rebuilt, answers compared with the original index on 10..16 queries. Non-trivial (parser level) = both sides accepted; distinct = distinct input"
+const c09Rule = "parser level: every pair (representation at indexing time, representation at query time) of the values {0, +-1, +-3, 7, +-127, 255, +-2^31, +-2^53+-1, +-2^62} in every supported shape (all integer widths, numeric string, json.Number, float32/64 incl. fractional, scalar / typed slice / heterogeneous list) and pairs of different values; end to end: the same pairs through AddDocument/Retrieve on both posting-list indexes; JSON ingest: documents of every operator (in/not-in on default, pattern and range containers, >, <, between) marshalled, unmarshalled and rebuilt, answers compared with the original index on 10..16 queries, and the decoded values compared with the model of encoding/json (Model/Json.v); dedicated cases for float32 values around 2^24 and for empty / nil slices as expression values. Non-trivial (parser level) = both sides accepted; distinct = distinct input"
 
 func init() {
 	vals := []int64{0, 1, -1, 3, -3, 7, 127, -127, 255, 1 << 31, -(1 << 31), 1<<53 - 1, -(1<<53 - 1), 1 << 62, -(1 << 62)}
@@ -206,6 +206,31 @@ func init() {
 			for i := 0; i < nj; i++ {
 				add(genJSONCase(r, i))
 			}
+			// dedicated JSON cases for the value classes whose meaning is known to change (findings F13, F15, F16, F17)
+			// and for their safe neighbours
+			for _, kind := range []string{"kgroups", "compact"} {
+				one := func(id int64, f int, inc bool, v TV) eDoc {
+					return eDoc{ID: id, Cons: []eConj{{{F: f, Inc: inc, V: v}}}}
+				}
+				qs := func(vals ...TV) []eQuery {
+					var out []eQuery
+					for _, v := range vals {
+						out = append(out, eQuery{A: []eAssign{{F: 1, V: v}}}, eQuery{A: []eAssign{{F: 0, V: v}}})
+					}
+					return append(out, eQuery{})
+				}
+				cfg := map[int]string{2: "ext_range", 3: "ac_matcher"}
+				// float32 below 2^24 (safe) / from 2^24 on (F16)
+				add(jsonCase{eCase: eCase{Kind: kind, Policy: "error", Configs: cfg, Docs: []eDoc{one(1, 1, true, tvFloat("float32", 16777215)), one(2, 1, true, tvSlice("[]float32", tvFloat("float32", 2.5), tvFloat("float32", 7)))},
+					Queries: qs(tvInt("int", 16777215), tvInt("int", 2), tvInt("int", 7))}, JSON: true})
+				add(jsonCase{eCase: eCase{Kind: kind, Policy: "error", Configs: cfg, Docs: []eDoc{one(1, 1, true, tvFloat("float32", 1<<30)), one(2, 1, false, tvSlice("[]float32", tvFloat("float32", 16777217)))},
+					Queries: qs(tvInt("int", 1<<30), tvInt("int", 1073741800), tvInt("int", 16777216), tvInt("int", 16777217))}, JSON: true})
+				// empty slices (safe) / nil slices (F17) as expression values
+				add(jsonCase{eCase: eCase{Kind: kind, Policy: "error", Configs: cfg, Docs: []eDoc{{ID: 1, Cons: []eConj{{{F: 0, Inc: true, V: tvSlice("[]int", tvInt("int", 7))}, {F: 1, Inc: false, V: tvSlice("[]string")}}}}},
+					Queries: qs(tvInt("int", 7), tvStr("a"))}, JSON: true})
+				add(jsonCase{eCase: eCase{Kind: kind, Policy: "error", Configs: cfg, Docs: []eDoc{{ID: 1, Cons: []eConj{{{F: 0, Inc: true, V: tvSlice("[]int", tvInt("int", 7))}, {F: 1, Inc: false, V: TV{T: "[]string", Nil: true}}}}}},
+					Queries: qs(tvInt("int", 7), tvStr("a"))}, JSON: true})
+			}
 		},
 		exec: func(raw json.RawMessage) (execResult, error) {
 			var probe struct {
@@ -255,6 +280,11 @@ func genJSONCase(r *Rand, i int) jsonCase {
 				case 1: // default container, strings / floats / json.Number literals that are not plain integers
 					if r.Chance(12) {
 						cj = append(cj, eExpr{F: 1, Inc: inc, V: pick(r, []TV{tvJSON("2.7"), tvSlice("[]json.Number", tvJSON("1e3"), tvJSON("7")), tvList(tvJSON("1.0"), tvStr("red")), tvJSON("-0"), tvJSON("100.5")})})
+					} else if r.Chance(8) { // float32 values: exact below 2^24, re-read as another float64 from 2^24 on
+						cj = append(cj, eExpr{F: 1, Inc: inc, V: pick(r, []TV{tvFloat("float32", 1<<30), tvSlice("[]float32", tvFloat("float32", 16777217), tvFloat("float32", 3)),
+							tvFloat("float32", 16777215), tvFloat("float32", 2.5), tvList(tvFloat("float32", 1<<24), tvInt("int", 7))})})
+					} else if r.Chance(8) { // nil / empty slices as expression values
+						cj = append(cj, eExpr{F: pick(r, []int{0, 1, 3}), Inc: inc, V: pick(r, []TV{{T: "[]string", Nil: true}, {T: "[]int", Nil: true}, {T: "[]interface{}", Nil: true}, tvSlice("[]string"), tvSlice("[]int")})})
 					} else if r.Bool() {
 						cj = append(cj, eExpr{F: 1, Inc: inc, V: tvSlice("[]string", tvStr(pick(r, words)))})
 					} else {
@@ -290,7 +320,7 @@ func genJSONCase(r *Rand, i int) jsonCase {
 		}
 		if r.Chance(50) {
 			a = append(a, eAssign{F: 1, V: pick(r, []TV{tvStr(pick(r, words)), tvInt("int", pick(r, ivals)), tvFloat("float64", float64(pick(r, ivals))+0.5),
-				tvStr("2.7"), tvInt("int", 2), tvStr("1e3"), tvJSON("1.0"), tvFloat("float64", 100.5)})})
+				tvStr("2.7"), tvInt("int", 2), tvStr("1e3"), tvJSON("1.0"), tvFloat("float64", 100.5), tvInt("int", 1<<30), tvInt("int", 1073741800), tvInt("int", 16777216)})})
 		}
 		if r.Chance(70) {
 			a = append(a, eAssign{F: 2, V: tvInt("int64", pick(r, ivals)+int64(r.Intn(3)-1))})
